@@ -330,7 +330,9 @@ def family_list(tier):
     # over-pressured production reservoir with a separate injection reservoir (its own depth / temperature / pressure inputs and code path)
     fams.append(('std-overpressure', F.lines(F.override(F.base(1, 1, 2, 4, (3, 2, 1)), {
         'Overpressure Percentage': '150', 'Overpressure Depletion Rate': '5', 'Injection Reservoir Depth': '1000', 'Injection Reservoir Inflation Rate': '10',
-        'Injection Reservoir Temperature': '90', 'Injection Reservoir Initial Pressure': '9000'}))))
+        'Injection Reservoir Temperature': '90', 'Injection Reservoir Initial Pressure': '9000',
+        # ... with the carbon-price block switched on: the only printed quantities of the MASS unit type (saved carbon production)
+        'Do Carbon Price Calculations': 'True', 'Starting Carbon Credit Value': '0.01', 'Ending Carbon Credit Value': '0.05', 'Carbon Escalation Rate Per Year': '0.01'}))))
     fams.append(('sbt-eavorloop', F.lines(F.sbt_base(3, 31, 1, (3, 2, 1), 5))))     # closed loop: its own length / time / diameter inputs
     from vf.checks import c07
     fams.append(('sutra', c07.file_lines(c07.ex('SUTRAExample1.txt'))))             # the SUTRA writer prints its own cost and energy tables
